@@ -90,7 +90,7 @@ def posterior_configs(fp, xs):
             run = [] if cp else run + [x]
         joint[len(run)] += w
     s = sum(joint)
-    return [v / s for v in joint]
+    return [v / s for v in joint] if s > 0 else None      # every configuration underflows in linear space (tiny variances): no reference
 
 
 def check(out: Outcome, p: dict, xs: list, runners: list, enum: bool = False) -> None:
@@ -101,6 +101,7 @@ def check(out: Outcome, p: dict, xs: list, runners: list, enum: bool = False) ->
     d = r.det
     rows = posterior_forward(fp, xs)
     fired = False
+    tols = {0: 1e-9}
     for t, x in enumerate(xs, 1):
         r.update(x)
         rep = {"class": "BOCD", "params": p, "stream": xs[:t], "step": t}
@@ -113,6 +114,7 @@ def check(out: Outcome, p: dict, xs: list, runners: list, enum: bool = False) ->
         got = [float(v) for v in np.exp(d.log_r[t, : t + 1])]
         # log-joints of magnitude L carry an absolute rounding error of about L * 2^-52, which becomes a relative error of the probabilities
         tol = 1e-9 + 1e-14 * float(np.max(np.abs(d.log_message[np.isfinite(d.log_message)]))) if np.any(np.isfinite(d.log_message)) else 1e-9
+        tols[t] = tol
         if any(math.isnan(v) for v in got) or abs(sum(got) - 1) > tol:
             out.violation(f"BOCD: run-length row at step {t} sums to {sum(got)!r}", rep)
             break
@@ -121,7 +123,7 @@ def check(out: Outcome, p: dict, xs: list, runners: list, enum: bool = False) ->
             break
         if enum and t <= 9:
             cfgs = posterior_configs(fp, xs[:t])
-            if max(abs(a - b) for a, b in zip(got, cfgs)) > tol:
+            if cfgs is not None and max(abs(a - b) for a, b in zip(got, cfgs)) > tol:
                 out.violation(f"BOCD: run-length distribution at step {t} differs from the sum over all changepoint configurations", rep)
                 break
         # predictions: mixture over the current posterior of the per-run-length posterior parameters
@@ -134,6 +136,11 @@ def check(out: Outcome, p: dict, xs: list, runners: list, enum: bool = False) ->
         if t >= fp["min_num_instances"]:
             top = sorted(want, reverse=True)
             if top[0] - top[1] < 1e-12:
+                continue
+            if tol > 1e-6:
+                # log-joints of magnitude > 1e8 (observations millions of standard deviations from every hypothesis): the spacing of doubles at that
+                # magnitude exceeds the differences that decide the arg-max - the verdict is rounding noise, not judged (ill-conditioned, not a tie)
+                out.count("ill_conditioned_decisions_skipped")
                 continue
             wd = max(range(t + 1), key=lambda i: want[i]) != t
             fired = fired or wd
@@ -153,7 +160,8 @@ def check(out: Outcome, p: dict, xs: list, runners: list, enum: bool = False) ->
         else:
             for t in range(T + 1):
                 want = [1.0] if t == 0 else rows[t - 1]
-                if np.any(tab[t, t + 1:] != 0.0) or abs(float(tab[t, : t + 1].sum()) - 1.0) > 1e-6 or max(abs(a - b) for a, b in zip(tab[t, : t + 1], want)) > 1e-6:
+                tl = max(1e-6, 10 * tols.get(t, 1e-9))       # same scaling with the magnitude of the log-joints as the per-step comparison
+                if np.any(tab[t, t + 1:] != 0.0) or abs(float(tab[t, : t + 1].sum()) - 1.0) > tl or max(abs(a - b) for a, b in zip(tab[t, : t + 1], want)) > tl:
                     out.violation(f"BOCD: row {t} of the run-length table is not the posterior after {t} updates any more (at the end of a run of {T} updates)", rep)
                     break
     runners.append(r)
@@ -207,6 +215,36 @@ def check_long(out: Outcome, p: dict, xs: list, runners: list) -> None:
     out.case({"class": "BOCD", "params": p, "n": len(xs), "long": True}, nontrivial=fired)
 
 
+def check_table_unread(out: Outcome, p: dict, xs: list) -> None:
+    """the usual way to use the table: feed the whole stream, THEN look at exp(log_r) - nothing is read in between (and, in a second instance,
+    a reset() happens while nothing has been read): every row t must still be the posterior after t updates"""
+    fp = dets.full_params("BOCD", p)
+    rows = posterior_forward(fp, xs)
+    if any(w is None for w in rows):
+        return
+    for pre in ([], xs[: len(xs) // 3]):
+        d = dets.make("BOCD", p)
+        for x in pre:                   # a first stretch, then reset() with the table never read
+            d.update(value=x)
+        if pre:
+            d.reset()
+        for x in xs:
+            d.update(value=x)
+        tab = np.exp(np.asarray(d.log_r, dtype=float))
+        T = len(xs)
+        rep = {"class": "BOCD", "params": p, "stream": xs, "kind": "table-unread", "unread_prefix_then_reset": len(pre)}
+        if tab.shape != (T + 1, T + 1):
+            out.violation(f"BOCD: log_r has shape {tab.shape} after {T} updates during which it was never read", rep)
+            continue
+        for t in range(T + 1):
+            want = [1.0] if t == 0 else rows[t - 1]
+            if np.any(tab[t, t + 1:] != 0.0) or abs(float(tab[t, : t + 1].sum()) - 1.0) > 1e-6 or max(abs(a - b) for a, b in zip(tab[t, : t + 1], want)) > 1e-6:
+                out.violation(f"BOCD: row {t} of the run-length table, first read after {T} updates, is not the posterior after {t} updates "
+                              f"(row sum {float(tab[t].sum())!r})", rep)
+                break
+    out.case({"class": "BOCD", "table_unread": True, "n": len(xs)})
+
+
 def run(out: Outcome) -> None:
     rng = rng_for(out.seed, "C08")
     thorough = out.tier == "thorough"
@@ -234,6 +272,8 @@ def run(out: Outcome) -> None:
         p = gen.rand_params(rng, "BOCD")
         p["min_num_instances"] = rng.choice([1, 2, 3])
         check(out, p, [rng.gauss(rng.choice([0, 2]), 1) for _ in range(9)], runners, enum=True)
+    for _ in range(6 if thorough else 2):
+        check_table_unread(out, gen.rand_params(rng, "BOCD"), [rng.gauss(0, 1) for _ in range(rng.randint(10, 45))] + [rng.gauss(3, 1) for _ in range(rng.randint(5, 30))])
     for _ in range(2 if thorough else 1):
         n1 = rng.randint(1080, 1250)
         xs = [rng.gauss(0.0, 1.0) for _ in range(n1)] + [rng.gauss(rng.choice([3.0, -4.0]), 1.0) for _ in range(rng.randint(40, 120))]
